@@ -1177,3 +1177,190 @@ def c08_corr(res, exe, driver, tier, seed, tmp):
                 "predicts the line and cursor after every key pressed during a search.")
     for c, impl, model, raw in out[:3]:
         res.samples.append({"keys": c.keys, "impl": " ## ".join(impl)[:400]})
+
+
+# ---------------------------------------------------------------- C14: completion
+
+C14_CANDS = ["foo", "foobar", "foo bar", "fo", "f", "food", "é", "éa", "日本", "ba", "bar", "baz", "x y", "abc", "abd", "foobaz"]
+
+
+def completer(table, text, pos):
+    """the scripted completer of the harness child, restated: the word starts after the last blank before the
+    cursor; candidates are the table entries starting with it"""
+    before = split_at(text, pos)[0]
+    k = 0
+    for j, c in enumerate(before):
+        if c == 0x20:
+            k = j + 1
+    start = blen(before[:k])
+    word = before[k:]
+    return start, [c for c in table if c[:len(word)] == word]
+
+
+def gen_c14(rng, ct, cands=()):
+    cmds = []
+    if cands and rng.random() < 0.75:
+        c = rng.choice(list(cands))
+        typed = rng.choice(["", "cd ", "a  "]) + c[:rng.randint(0, len(c))]
+    else:
+        typed = p_tty.rand_text(rng, 0, 6, ["f", "o", "b", "a", " ", "é", "x"])
+    for ch in typed:
+        cmds.append(Cmd([ch], "ins", c=ord(ch), n=1))
+    if rng.random() < 0.4:
+        cmds.append(Cmd([rng.choice(["Left", "C-a", "M-b"])], "motion"))
+    for _ in range(rng.randint(1, 3)):
+        cmds.append(Cmd([rng.choice(["Tab", "Tab", "C-i"])], "c_tab"))
+        for _ in range(rng.randint(0, 6)):
+            cmds.append(Cmd(["Tab"], "c_tab") if rng.random() < 0.7 else Cmd(["BackTab"], "c_back"))
+        r = rng.random()
+        if r < 0.3:
+            cmds.append(Cmd([rng.choice(["C-g", "Esc"])], "c_abort"))
+        elif r < 0.7:
+            key, tag = rng.choice([("Left", "left"), ("Right", "right"), ("C-a", "home"), ("C-e", "end")])
+            cmds.append(Cmd([key], tag))
+            if rng.random() < 0.7:
+                cmds.append(Cmd(["C-_"], "undo", n=1))
+        else:
+            ch = rng.choice(["o", "b", " ", "x"])
+            cmds.append(Cmd([ch], "ins", c=ord(ch), n=1))
+    cmds.append(Cmd(["F12"], "noop"))
+    return cmds
+
+
+def c14_oracle_cases(tier, seed):
+    rng = random.Random(seed * 1511 + 19)
+    n = 3000 if tier == "thorough" else 260
+    cases = []
+    for _ in range(n):
+        ct = rng.choice(["circular", "circular", "list"])
+        cands = rng.sample(C14_CANDS, rng.choice([1, 2, 3, 4, 6]))
+        cases.append(script_case(gen_c14(rng, ct, cands), mode="emacs", completion=ct, cands=cands, timeout=0,
+                                 prompt=rng.choice(["> ", "日> "]), cols=rng.choice([80, 80, 30]),
+                                 initial=p_tty.mk_initial(rng, 0.4, ["f", "o", " ", "b", "a", "é", "|"])))
+    return cases
+
+
+def lcp(strs):
+    p = strs[0]
+    for s in strs[1:]:
+        k = 0
+        while k < len(p) and k < len(s) and p[k] == s[k]:
+            k += 1
+        p = p[:k]
+    return p
+
+
+def eval_c14(res, traces, segs, ws, stream):
+    stats = {}
+
+    def bump(k):
+        stats[k] = stats.get(k, 0) + 1
+
+    for t in traces:
+        if not t.ok:
+            continue
+        table = [[ord(ch) for ch in c] for c in t.case.cands]
+        circular = t.case.completion == "circular"
+        comp = None           # inside a circular completion: dict(start, cands, backup, i, pre, suf)
+        accepted = None       # (text before the completion) when a completion has just been accepted by a motion
+        listing = False
+        for i, (cmd, (text, pos), after, ob) in enumerate(t.steps):
+            if after[0] != "state":
+                break
+            text2, pos2 = after[1], after[2]
+            tag = cmd.tag
+            exp = None
+            if comp is not None:
+                n = len(comp["cands"])
+                if tag in ("c_tab", "c_back"):
+                    comp["i"] = (comp["i"] + 1) % (n + 1) if tag == "c_tab" else (n if comp["i"] == 0 else comp["i"] - 1)
+                    bump("cycle")
+                elif tag == "c_abort":
+                    exp = comp["backup"]
+                    comp = None
+                    bump("abort")
+                else:
+                    # any other key keeps what is shown and is executed on it
+                    bump("accept")
+                    shown_differs = text != comp["backup"][0]
+                    base = comp["backup"][0]
+                    comp = None
+                    e2 = spec_apply(tag, cmd.arg, text, pos, segs, ws)
+                    if e2 is not None:
+                        exp = e2
+                    if tag in MOTION_TAGS and shown_differs:
+                        accepted = base
+                if comp is not None:
+                    k = comp["i"]
+                    if k < n:
+                        c = comp["cands"][k]
+                        exp = (comp["pre"] + c + comp["suf"], blen(comp["pre"]) + blen(c))
+                    else:
+                        exp = comp["backup"]
+            elif tag == "c_tab" and not listing:
+                start, cands = completer(table, text, pos)
+                accepted = None
+                if not cands:
+                    exp = (text, pos)
+                    bump("tab_no_candidate")
+                elif circular:
+                    pre = split_at(text, start)[0]
+                    suf = split_at(text, pos)[1]
+                    comp = {"start": start, "cands": cands, "backup": (text, pos), "i": 0, "pre": pre, "suf": suf}
+                    exp = (pre + cands[0] + suf, blen(pre) + blen(cands[0]))
+                    bump("tab_circular")
+                else:
+                    p = lcp(cands)
+                    pre = split_at(text, start)[0]
+                    suf = split_at(text, pos)[1]
+                    if blen(p) > pos - start or len(cands) == 1:
+                        exp = (pre + p + suf, blen(pre) + blen(p))
+                        bump("tab_list_lcp")
+                    else:
+                        exp = (text, pos)
+                        bump("tab_list_nothing")
+                    listing = len(cands) > 1        # the next key is read by the listing logic
+            elif tag == "undo" and accepted is not None:
+                bump("undo_after_accept")
+                if text2 != accepted:
+                    fail_case(res, stream, t, "one Undo after the accepted completion gave (%s), not the pre-completion text (%s)" % (
+                        enc(text2), enc(accepted)))
+                    break
+                accepted = None
+                continue
+            else:
+                if listing:
+                    listing = False
+                    if tag == "c_tab":
+                        continue      # the listing itself: not a statement about the text
+                if tag not in MOTION_TAGS:
+                    accepted = None
+                continue
+            if exp is not None:
+                res.nontrivial.add((tag, enc(text), pos, tuple(t.case.cands)))
+                if (text2, pos2) != exp:
+                    fail_case(res, stream, t, "completion key %d %r on (%s,%d): expected (%s,%d), shown (%s,%s)" % (
+                        i, cmd, enc(text), pos, enc(exp[0]), exp[1], enc(text2), pos2))
+                    break
+    return stats
+
+
+def c14_corr(res, exe, driver, tier, seed, tmp):
+    cases = p_tty.c14_cases(tier, seed)
+    run_tty_cases(res, exe, driver, cases, tmp, "complete", rng=random.Random(seed), typeahead=0.3)
+    ocases = c14_oracle_cases(tier, seed)
+    out, traces = run_spec_stream(res, exe, driver, ocases, tmp, "complete-spec", seed)
+    segs = Segs(exe, tmp)
+    collect_segs(segs, traces)
+    stats = eval_c14(res, traces, segs, WordSpec(ud_tables()), "complete-spec")
+    res.distribution.update({"oracle": stats, "spec_alignment": alignment(traces), "complete_scripts": len(cases),
+                             "spec_scripts": len(ocases)})
+    res.rule = ("complete: random emacs/vi scripts with a scripted completer (0-5 candidates incl. multi-byte, shared prefixes, "
+                "the empty string, 101+ candidates for the pager question), circular and list mode, Tab / Shift-Tab / C-i, numeric "
+                "arguments, aborts, accepts, undo; compared with the extracted model. complete-spec: the completer's answer is "
+                "recomputed here from the observed text; every Tab / Shift-Tab must show the predicted candidate inside the span "
+                "with the text before and after intact (or the original text at index n), Escape / C-g the original text and cursor, "
+                "another key the shown text with that key applied, list mode the longest common prefix when it extends the span, "
+                "and one Undo after a completion accepted by a motion the pre-completion text.")
+    for c, impl, model, raw in out[:3]:
+        res.samples.append({"keys": c.keys, "impl": " ## ".join(impl)[:400]})
